@@ -115,7 +115,7 @@ func entriesUnder(dir string) (fds, maps int, detail []string) {
 
 func simpledbGoroutines() (int, string) {
 	var last string
-	for i := 0; i < 500; i++ {
+	for i := 0; i < 1000; i++ {
 		buf := make([]byte, 1<<20)
 		n := runtime.Stack(buf, true)
 		cnt := 0
@@ -217,6 +217,9 @@ func (c c19) dbCase(w *core.WCtx, cs c19Case) core.Result {
 					return r
 				}
 				afterClose(step)
+				if len(r.Viol) > 0 {
+					return r
+				}
 				if db = open(); db == nil {
 					return r
 				}
